@@ -105,6 +105,9 @@ class Acc:
                     continue
                 self.n_model += len(lines)
                 for i, o in zip(idx, outs):
+                    if res[i][0] == "skip":      # the harness could not set this case up (no regular base value)
+                        self.n_model -= 1
+                        continue
                     if o != res[i][0]:
                         self.n_diffs += 1
                         if len(self.diffs) < 2000:
